@@ -8,7 +8,7 @@ from ..core import terms as T
 from ..core import asthelp as H
 from ..core.interp import Interp, assume
 from ..core.progdb import AnalysisError
-from ..core.values import Frame, Obj, PyTuple, to_term
+from ..core.values import Frame, Obj, PyTuple, Ser, to_term
 from ..specs.merge import check_term
 
 EXPLANATION = (
@@ -140,10 +140,36 @@ def _defaults(db, chk, m):
                found=[ast.unparse(r.value)[:120] for r in rets], accepted=f"sorted(<{src} numbers>)",
                why="extract_ops takes [:1] as the default: an order by symbol string puts ProfilerStep#10 before ProfilerStep#9")
     ex = m.func("LabeledTrace._extract_iterations")
-    lam = [n for n in ast.walk(ex) if isinstance(n, ast.Lambda)]
-    okn = any(H.match("lambda $s: int($s.replace('ProfilerStep#', ''))", l) is not None for l in lam)
-    chk.ob(rule, "iteration numbers are the integers parsed from the ProfilerStep#<n> symbols", okn, m.loc(ex), found=[ast.unparse(l) for l in lam], accepted="int(symbol.replace('ProfilerStep#', ''))",
-           why="string-valued iteration numbers sort lexicographically")
+    # decided by evaluating _extract_iterations on a symbolic symbol map: the 'iteration' column of the frame it returns
+    SMAP = ("param", "SMAP")
+    FS = Frame(SMAP)
+    SM = Ser(T.col(SMAP, "__values__"), FS.ctx(), FS, None)
+
+    def hook(I, name, pos, kw, node):
+        if name.endswith("get_sym_id_map"):
+            return SM
+        return NotImplemented
+
+    I = Interp(db, call_hook=hook)
+    runs = [r for r in I.explore(f"{TD}:LabeledTrace._extract_iterations",
+                                 lambda I: {"self": Obj("self", cls=(m, "LabeledTrace"), attrs={"t": Obj("t", attrs={"symbol_table": Obj("symtab")})})}) if r.raised is None]
+    col = None
+    if len(runs) == 1 and isinstance(runs[0].ret, Frame) and runs[0].ret.has("iteration"):
+        col = runs[0].ret.col("iteration")
+    idx = T.show(("index", SMAP))
+    stripped = ("call", f"{idx}.replace", T.C("ProfilerStep#"), T.C(""))
+    okn = None
+    if col is not None:
+        if col == ("cast", "int", stripped):
+            okn = True
+        elif col == stripped or col == ("cast", "str", stripped) or col == ("index", SMAP):
+            okn = False                      # the digits (or the whole symbol) kept as a string
+    chk.ob(rule, "iteration numbers are the integers parsed from the ProfilerStep#<n> symbols", okn, m.loc(ex), found=T.show(col)[:160] if col is not None else f"{len(runs)} path(s), no 'iteration' column understood",
+           accepted="int(symbol.replace('ProfilerStep#', ''))", why="string-valued iteration numbers sort lexicographically")
+    if col is not None:
+        R = runs[0].ret
+        chk.ob(rule, "the iteration table lists the symbols that start with 'ProfilerStep' (every profiler step, nothing else)",
+               True if R.rows == ("strmatch", "startswith", ("index", SMAP), T.C("ProfilerStep"), ()) and R.base == SMAP else None, m.loc(ex), found=T.show(R.rows)[:160], accepted="symbol.startswith('ProfilerStep')")
 
 
 def _one_selection(chk, rule, where, dev, want, R):
